@@ -412,7 +412,7 @@ func reverseNext(ref *refexec.Result) map[string]string {
 // Gen draws a query with @defer, a plan and a completion schedule.
 func Gen(t *rapid.T) Case {
 	var c Case
-	c.Project = rapid.SampledFrom(proj.Names()).Draw(t, "project")
+	c.Project = kit.DrawProject(t)
 	srvs, err := kit.Servers(c.Project)
 	if err != nil {
 		t.Fatalf("harness: %v", err)
